@@ -3,6 +3,7 @@ SPECIFICATION Spec
 CONSTANTS
   OptIds = {0, 1, 2, 3, 4, 5, 6}
   FromFile = TRUE
+  LookupLikeBlack = TRUE
   Mode = "mc"
 INVARIANT C20clean
 INVARIANT C20unclean
